@@ -16,6 +16,8 @@ for d in sorted(glob.glob("/verif/seeded/*")):
     target = m.get("property")
     tr = (m.get("checks_quick") or {}).get(target, {})
     status = "caught by its own check" if target in caught else ("caught only by " + ", ".join(caught) if caught else "NOT caught")
+    if m.get("obsolete"):
+        status = "obsolete after a repair (see meta.json)"
     if m.get("strengthened"):
         status += " (missed by the harness as it was before; strengthening: " + m["strengthened"] + ")"
     rows.append((name, target, first, ", ".join(caught) or "-", ", ".join(tried), status, tr.get("message", "")[:160].replace("|", "/")))
